@@ -281,6 +281,13 @@ def _emit_extracted(u, target, args, block, subst, emit):
             raise ExtractError(f'lost anchor: text to substitute `{a_}` not found in {relpath}::{fname}')
         body = body.replace(a_, b_)
         fired.add('subst[' + a_ + ' => ' + b_ + ']')
+    # `subst_opt=`: the same, applied wherever the text occurs and silently skipped where it does not (a rewrite that only exists to name a construct Verus cannot call,
+    # e.g. a supertrait method as a free function: if the code no longer contains the construct there is nothing to rewrite)
+    for pair in [x for x in args.get('subst_opt', '').split('|') if '=>' in x]:
+        a_, b_ = pair.split('=>', 1)
+        if a_ in body:
+            body = body.replace(a_, b_)
+            fired.add('subst[' + a_ + ' => ' + b_ + ']')
     if 'ret' in args:
         sig = name_return(sig, args['ret'])
     if 'rename' in args:
